@@ -302,6 +302,7 @@ func Run(c *hx.Ctx) {
 		c.Count("pool:" + k.Kind)
 	}
 	bases := d.PrepareBases()
+	dups := d.PrepareDup()
 	for _, def := range pool.BlobDefs {
 		c.CoqHeader(def)
 	}
@@ -311,6 +312,8 @@ func Run(c *hx.Ctx) {
 			d.replay(in)
 		}
 	}
+	d.RunDup(dups)
+	d.OverSigned(1)
 	d.Generate(bases)
 	c.Note(fmt.Sprintf("abstract-signature validation: %d crypto-library Verify calls compared with abs_verify", d.W.AbsN))
 }
